@@ -296,6 +296,70 @@ flow main
   match Never()
 """, [E("Tick", k=0), E("Tick", k=1), E("Other")], prefix=())
 
+# programs whose variables hold the kinds of values a Colang program can create, used again after the cut
+prog("vars_kinds", """
+flow waiter $p
+  match Ev(t=$p)
+  send Matched()
+
+flow main
+  match Go() as $e
+  $l = [1, [2, 3]]
+  $d = {"k": 1, "n": {"m": None}}
+  $f = 0.5
+  $b = True
+  $t = "text"
+  start UtteranceBotAction(script="a") as $act
+  start waiter "abc" as $w
+  match Next() as $n
+  send Out(l=$l, d=$d, f=$f, b=$b, t=$t, from_go=$e.x, from_next=$n.x)
+  match $act.Finished()
+  send ActDone()
+  match $w.Finished()
+  send WaiterDone()
+  match Never()
+""", [E("Go", x=1), E("Next", x=1), ("finished", 0), E("Ev", t="abc"), E("Ev", t="zzz"), E("Other")])
+
+prog("vars_regex", """
+flow waiter $p
+  match Ev(t=$p)
+  send Matched()
+
+flow main
+  match Go()
+  start waiter (regex("^a")) as $w
+  match Next()
+  send Out()
+  match $w.Finished()
+  send WaiterDone()
+  match Never()
+""", [E("Go"), E("Next"), E("Ev", t="abc"), E("Ev", t="zzz"), E("Other")])
+
+prog("vars_cmp", """
+flow waiter $p
+  match Ev(val=$p)
+  send Matched()
+
+flow main
+  match Go()
+  start waiter (less_than(3)) as $w
+  match Next()
+  send Out()
+  match $w.Finished()
+  send WaiterDone()
+  match Never()
+""", [E("Go"), E("Next"), E("Ev", val=1), E("Ev", val=4), E("Other")])
+
+prog("vars_intkeys", """
+flow main
+  match Go()
+  $di = {1: "one", 2: "two"}
+  match Next() as $n
+  send Out(v=$di[$n.k])
+  match Never()
+""", [E("Go"), E("Next", k=1), E("Other")])
+
+
 LIBRARY_MAIN = """
 import core
 
